@@ -1,7 +1,7 @@
 (* Proofs for C19 (Model.Determinism): the audit sweeps, the generic reasons why the enumeration order of a set cannot
    reach a result (a loop whose body commutes, a sort / min on a key, a canonical set built by add(), a table that is
    only looked up), and transparency of the memoisation layer.  Self contained: Stdlib + Model.Determinism only. *)
-From Coq Require Import ZArith List String Bool Lia Permutation.
+From Coq Require Import ZArith NArith List String Ascii Bool Lia Permutation.
 From Model Require Import Determinism.
 From Gen Require Import SetAudit.
 Import ListNotations.
@@ -543,8 +543,107 @@ Proof.
 Qed.
 
 (* ------------------------------------------------------------------------------------------------------------ *)
-(* list(v) for a set v of str is NOT order free: the model of `{k: list(v) ...}` in morgan_hash_smiles is the
-   enumeration itself, and two enumerations of the same two-member set differ *)
+(* sorted(S) under a total order: the same list for every enumeration of S (no key, no ties: antisymmetry) *)
+Section SortLebProofs.
+  Context {X : Type}.
+  Variable leb : X -> X -> bool.
+  Hypothesis leb_total : forall a b, leb a b = true \/ leb b a = true.
+  Hypothesis leb_antisym : forall a b, leb a b = true -> leb b a = true -> a = b.
+  Hypothesis leb_trans : forall a b c, leb a b = true -> leb b c = true -> leb a c = true.
+
+  Fixpoint lsorted (l : list X) : Prop :=
+    match l with [] => True | x :: r => (forall y, In y r -> leb x y = true) /\ lsorted r end.
+
+  Lemma insert_leb_perm x l : Permutation (insert_leb leb x l) (x :: l).
+  Proof.
+    induction l as [|y r IH]; cbn; [apply Permutation_refl|].
+    destruct (leb x y); [apply Permutation_refl|].
+    eapply Permutation_trans; [apply perm_skip, IH | apply perm_swap].
+  Qed.
+
+  Lemma sort_leb_perm_self l : Permutation (sort_leb leb l) l.
+  Proof.
+    induction l as [|x r IH]; cbn; [apply perm_nil|].
+    eapply Permutation_trans; [apply insert_leb_perm | apply perm_skip, IH].
+  Qed.
+
+  Lemma insert_leb_sorted x l : lsorted l -> lsorted (insert_leb leb x l).
+  Proof.
+    induction l as [|y r IH]; cbn; intros Hs.
+    - split; [intros ? []|exact I].
+    - destruct Hs as [Hy Hr]. destruct (leb x y) eqn:E.
+      + cbn. repeat split; auto. intros z [<-|Hz]; [exact E|]. eapply leb_trans; [exact E | apply Hy, Hz].
+      + cbn. split; [|apply IH, Hr].
+        intros z Hz. apply (Permutation_in _ (insert_leb_perm x r)) in Hz. destruct Hz as [<-|Hz]; [|auto].
+        destruct (leb_total x y) as [H|H]; [congruence | exact H].
+  Qed.
+
+  Lemma sort_leb_sorted l : lsorted (sort_leb leb l).
+  Proof. induction l as [|x r IH]; cbn; [exact I|]. apply insert_leb_sorted, IH. Qed.
+
+  Lemma lsorted_unique : forall l1 l2, lsorted l1 -> lsorted l2 -> Permutation l1 l2 -> l1 = l2.
+  Proof.
+    induction l1 as [|a r1 IH]; intros l2 H1 H2 Hp.
+    - apply Permutation_nil in Hp. subst. reflexivity.
+    - destruct l2 as [|b r2]; [apply Permutation_sym, Permutation_nil in Hp; discriminate|].
+      destruct H1 as [Ha Hr1], H2 as [Hb Hr2].
+      assert (Hab : a = b).
+      { assert (In a (b :: r2)) as Ia by (eapply Permutation_in; [exact Hp | left; reflexivity]).
+        assert (In b (a :: r1)) as Ib by (eapply Permutation_in; [apply Permutation_sym, Hp | left; reflexivity]).
+        destruct Ia as [->|Ia]; [reflexivity|]. destruct Ib as [->|Ib]; [reflexivity|].
+        apply leb_antisym; [apply Ha, Ib | apply Hb, Ia]. }
+      subst b. f_equal. apply IH; auto. eapply Permutation_cons_inv, Hp.
+  Qed.
+
+  (* sorted(S) for a total order: the same list for every enumeration of S *)
+  Lemma sort_leb_perm l l' : Permutation l l' -> sort_leb leb l = sort_leb leb l'.
+  Proof.
+    intros Hp. apply lsorted_unique; try apply sort_leb_sorted.
+    eapply Permutation_trans; [apply sort_leb_perm_self|].
+    eapply Permutation_trans; [exact Hp | apply Permutation_sym, sort_leb_perm_self].
+  Qed.
+End SortLebProofs.
+
+(* str comparison of Python on ASCII text = String.leb (lexicographic on code points) *)
+Lemma ascii_compare_lt_trans a b c : Ascii.compare a b = Lt -> Ascii.compare b c = Lt -> Ascii.compare a c = Lt.
+Proof. unfold Ascii.compare. rewrite !N.compare_lt_iff. lia. Qed.
+
+Lemma ascii_compare_refl z : Ascii.compare z z = Eq.
+Proof. unfold Ascii.compare. apply N.compare_refl. Qed.
+
+Lemma string_compare_refl : forall s, String.compare s s = Eq.
+Proof. induction s as [|x s IH]; cbn; [reflexivity|]. rewrite ascii_compare_refl. exact IH. Qed.
+
+Lemma string_compare_lt_trans : forall a b c, String.compare a b = Lt -> String.compare b c = Lt -> String.compare a c = Lt.
+Proof.
+  induction a as [|x a IH]; intros [|y b] [|z c]; cbn; try discriminate; auto.
+  destruct (Ascii.compare x y) eqn:E1; try discriminate; destruct (Ascii.compare y z) eqn:E2; try discriminate; intros H1 H2.
+  - apply Ascii.compare_eq_iff in E1, E2. subst. rewrite ascii_compare_refl. eapply IH; eauto.
+  - apply Ascii.compare_eq_iff in E1. subst. rewrite E2. reflexivity.
+  - apply Ascii.compare_eq_iff in E2. subst. rewrite E1. reflexivity.
+  - rewrite (ascii_compare_lt_trans _ _ _ E1 E2). reflexivity.
+Qed.
+
+Lemma string_leb_trans a b c : String.leb a b = true -> String.leb b c = true -> String.leb a c = true.
+Proof.
+  unfold String.leb. destruct (String.compare a b) eqn:E1; try discriminate; destruct (String.compare b c) eqn:E2; try discriminate; intros _ _.
+  - apply String.compare_eq_iff in E1, E2. subst. rewrite string_compare_refl. reflexivity.
+  - apply String.compare_eq_iff in E1. subst. rewrite E2. reflexivity.
+  - apply String.compare_eq_iff in E2. subst. rewrite E1. reflexivity.
+  - rewrite (string_compare_lt_trans _ _ _ E1 E2). reflexivity.
+Qed.
+
+Lemma sorted_str_perm (l l' : list string) : Permutation l l' -> sorted_str l = sorted_str l'.
+Proof.
+  unfold sorted_str. apply sort_leb_perm.
+  - apply String.leb_total.
+  - intros a b H1 H2. apply String.leb_antisym; assumption.
+  - apply string_leb_trans.
+Qed.
+
+(* ------------------------------------------------------------------------------------------------------------ *)
+(* list(v) / tmp.extend(v) for a set v of str (or of molecules, hashed through their str) is NOT order free: its model
+   (morgan_hash_smiles before fix 59bbd7c, remove_reagents today) is the enumeration itself, and two enumerations of the same two-member set differ *)
 Lemma list_of_set_order_dependent :
   exists e e' : list string, Permutation e e' /\ List.length e = 2%nat /\ e <> e'.
 Proof.
